@@ -231,6 +231,12 @@ pub mod qzone {
         /// The zone's name (same vocabulary as the catalog units' `Zone` stand-in).
         spec fn spec_name(&self) -> Name;
 
+        /// The zone's name is a valid name, it names the apex of the zone's contents, and the contents
+        /// are well formed (what `name()` returns at run time, available to ghost code of callers --
+        /// e.g. handle_query, to turn the catalog's longest-suffix result into `at_or_below(qname, apex)`).
+        proof fn lemma_apex(&self)
+            ensures self.spec_name().wf(), labels(self.spec_name()) == self.zv().apex, zone_wf(self.zv());
+
         /// "Returns the name of the zone (i.e., the domain name of the zone's apex node)."
         fn name(&self) -> (r: &Name)
             ensures *r == self.spec_name(), r.wf(), labels(*r) == self.zv().apex, zone_wf(self.zv());
